@@ -189,8 +189,8 @@ static int do_exh(int nmax, int pb, int part, int nparts) {
         int look = nA == nB;
         int u0 = cross ? nB : nA, u1 = cross ? nA : nB;          // number of USE actions in thread 0 / 1
         for (int pa = 0; pa <= u0; pa++) for (int pbb = 0; pbb <= u1; pbb++) {
-            programs++;
             if (idx++ % nparts != part) continue;
+            programs++;
             Case c; c.nkeys = 1; c.cr_key = {0, 0}; c.cr_n = {nA, nB}; c.prog.resize(2);
             for (int t = 0; t < 2; t++) {
                 int u = t ? u1 : u0, pos = t ? pbb : pa, target = cross ? 1 - t : t;
